@@ -328,6 +328,9 @@ func init() {
 			c.RulerFastPath("C09")
 			c.RulerKeyAgreement("C09")
 			c.ScatterIndexDiscipline("C09")
+			c.ImmutableAfterConstruction("C09.O5 config.immutable", pkgUnlocker, "unlocker passphrase")
+			c.ImmutableAfterConstruction("C09.O5 config.immutable", pkgChecker, "permission table")
+			c.PreCheckRules("C09")
 		},
 		Explanation: "No spurious refusal, decided as a closed table: every DENIED of the attestation and proposal rules is entered through an edge whose atom is one of {wrong domain; target <= source and not both 0; target <= recorded target; source < recorded source; slot <= recorded slot; value above 2^63-1}, comparisons with a recorded value only below [recorded >= 0]; every FAILED lies below an error edge or a malformed-argument test; the single and the batch attestation rule refuse for the same reasons; the batch path pairs metadata[i], request[i] and state[i] of one index, records with the same encoder and key builder, and the ruler's fast path builds position i from rules-data entry i and returns the verdicts unchanged. See DESIGN.md §5 C09.",
 		Trusted:     append([]string{"signer-level liveness (account unlock, third-party signer)", "util.Scatter covers every index exactly once (arithmetic over runtime values: not decided)"}, commonTrusted...),
